@@ -243,10 +243,14 @@ pub fn drive(args: &Args) -> i32 {
     let mut out = std::io::BufWriter::new(std::fs::File::create(args.req("out")).unwrap());
     for run in 0..n {
         let lay = format!("random:{}", rng.gen::<u32>());
+        let size = [0usize, 1, 63, 64, 65, 4087, 4088, 4089, 5000, 70000][rng.gen_range(0..10)] + rng.gen_range(0..3);
+        let info = ["standard", "agile"][rng.gen_range(0..2)];
+        let content = ["xls", "vba"][rng.gen_range(0..2)];
+        let fp = ["none", "xor", "rc4", "cryptoapi"][rng.gen_range(0..4)];
         let k = match rng.gen_range(0..4) {
-            0 => json!({"kind": "ooxml", "size": [0usize, 1, 63, 64, 65, 4087, 4088, 4089, 5000, 70000][rng.gen_range(0..10)] + rng.gen_range(0..3), "info": ["standard", "agile"][rng.gen_range(0..2)], "layout": lay, "dataspaces": rng.gen_bool(0.5)}),
-            1 => json!({"kind": "plaincfb", "content": ["xls", "vba"][rng.gen_range(0..2)], "layout": lay}),
-            2 => json!({"kind": "biff", "filepass": ["none", "xor", "rc4", "cryptoapi"][rng.gen_range(0..4)], "after_writeprotect": rng.gen_bool(0.5), "sheets": rng.gen_range(1..3)}),
+            0 => json!({"kind": "ooxml", "size": size, "info": info, "layout": lay, "dataspaces": rng.gen_bool(0.5)}),
+            1 => json!({"kind": "plaincfb", "content": content, "layout": lay}),
+            2 => json!({"kind": "biff", "filepass": fp, "after_writeprotect": rng.gen_bool(0.5), "sheets": rng.gen_range(1..3)}),
             _ => json!({"kind": "ods", "entries": (0..rng.gen_range(1..4)).map(|_| rng.gen_bool(0.4)).collect::<Vec<_>>()}),
         };
         for (reader, got) in materialise_and_open(&k) {
